@@ -471,6 +471,7 @@ func behaviouralPart(run *report.Run, dir string) {
 	e.qos(th)
 	e.antispoof(th)
 	e.nat(th)
+	e.natALG()
 	run.AddPart(report.Part{Name: "behavioural: real managers -> kernel maps -> in-kernel program", Engine: "C:kernel-test-run", Bound: "positional basis of every key derivation", Executions: e.n, Outcomes: e.hits, States: e.hits, Exhaustive: true})
 	run.AddEvals(e.n, e.hits)
 }
@@ -556,12 +557,17 @@ func (e *env) dhcp(th bool) {
 			l.RemoveVLANSubscriber(s, c)
 		}
 	}
-	// circuit-id key: every length 0..64
-	for n := 0; n <= 64; n++ {
+	// circuit-id key: every length 0..64, plus ids with blank / NUL bytes at either end and inside
+	special := [][]byte{[]byte("ab "), []byte(" ab"), []byte("a\x00b"), []byte("ab\x00 "), []byte("  "), []byte("ab\t"), []byte("AB"), []byte("ab")}
+	for n := 0; n <= 64+len(special); n++ {
 		cid := make([]byte, n)
 		for i := range cid {
 			cid[i] = byte('A' + i%26)
 		}
+		if n > 64 {
+			cid = special[n-65]
+		}
+		n := len(cid)
 		if err := l.AddCircuitIDSubscriber(cid, &ebpf.PoolAssignment{PoolID: 1, AllocatedIP: ebpf.IPToUint32(net.IPv4(10, 1, 1, 10)), LeaseExpiry: far}); err != nil {
 			viol(e.run, part, "write-rejected", "AddCircuitIDSubscriber", err.Error())
 			return
@@ -768,6 +774,94 @@ func (e *env) nat(th bool) {
 			e.hits++
 		}
 		m.DeallocateNAT(ip)
+	}
+}
+
+// natALG: keys of the alg_ports map. ConfigureALG(port, proto) writes (port<<16 | proto); the program derives its
+// lookup key from the packet's destination port and protocol. Executed in-kernel: a flow to a configured ALG port
+// must be handed to the ALG (not translated, alg_triggers counted), other flows must be translated.
+func (e *env) natALG() {
+	part := "behavioural:nat44-alg"
+	k := e.k["nat44"]
+	for _, n := range []string{"subscriber_nat", "alg_ports", "nat_sessions", "nat_reverse", "eim_table", "hairpin_ips"} {
+		k.ClearMap(n)
+	}
+	m, err := nat.NewManager(nat.ManagerConfig{Interface: "lo", PortsPerSubscriber: 64, PortRangeStart: 1024, PortRangeEnd: 65535, EnableFTPALG: true, EnableSIPALG: true}, zap.NewNop())
+	if err != nil {
+		e.run.HarnessError(err.Error())
+		return
+	}
+	m.VerifSetMaps(e.maps("nat44"))
+	// what Start() writes into nat_config_map for this configuration
+	var zero uint32
+	if err := e.maps("nat44")["nat_config_map"].Put(&zero, &nat.NATConfig{Flags: nat.NATFlagALGFTP | nat.NATFlagALGSIP, PortRangeStart: 1024, PortRangeEnd: 65535, DefaultPortsPerSub: 64}); err != nil {
+		viol(e.run, part, "write-rejected", "nat_config_map", err.Error())
+		return
+	}
+	pub := net.IPv4(203, 9, 9, 203).To4() // palindromic: independent of the recorded byte-order finding
+	sub := net.IPv4(10, 7, 7, 10).To4()
+	m.AddPublicIP(pub)
+	if _, err := m.AllocateNAT(sub); err != nil {
+		viol(e.run, part, "write-rejected", "AllocateNAT", err.Error())
+		return
+	}
+	type alg struct {
+		port  uint16
+		proto uint8
+		typ   uint8
+	}
+	for _, a := range []alg{{21, 6, 1}, {5060, 17, 2}, {5060, 6, 2}, {2121, 6, 1}, {256, 17, 2}, {1, 6, 1}} {
+		if err := m.ConfigureALG(a.port, a.proto, a.typ, true); err != nil {
+			viol(e.run, part, "write-rejected", "ConfigureALG", err.Error())
+			return
+		}
+	}
+	tcp := func(sp, dp uint16) []byte {
+		h := make([]byte, 20)
+		binary.BigEndian.PutUint16(h[0:], sp)
+		binary.BigEndian.PutUint16(h[2:], dp)
+		h[12] = 0x50
+		h[13] = 0x02
+		return h
+	}
+	cases := []struct {
+		proto byte
+		port  uint16
+		alg   bool
+	}{{6, 21, true}, {17, 5060, true}, {6, 5060, true}, {6, 2121, true}, {17, 256, true}, {6, 1, true},
+		{17, 53, false}, {6, 443, false}, {17, 21, false}, {6, 5061, false}, {17, 50195 /* 5060 byte-swapped */, false}, {6, 5376 /* 21 byte-swapped */, false}}
+	for _, c := range cases {
+		before, err := m.GetStats()
+		if err != nil {
+			viol(e.run, part, "read-rejected", "nat.GetStats", err.Error())
+			return
+		}
+		var l4 []byte
+		if c.proto == 6 {
+			l4 = tcp(40000, c.port)
+		} else {
+			l4 = udp(40000, c.port, make([]byte, 8))
+		}
+		f := ethIPv4(mac(1), mac(2), sub, net.IPv4(8, 8, 8, 8), c.proto, l4)
+		v, out, err := k.Run("nat44_egress", f)
+		e.n++
+		if err != nil {
+			e.run.HarnessError(err.Error())
+			return
+		}
+		after, _ := m.GetStats()
+		translated := !net.IP(out[26:30]).Equal(sub)
+		triggered := after.ALGTriggers > before.ALGTriggers
+		switch {
+		case v != nativebpf.TC_ACT_OK:
+			viol(e.run, part, "alg-key", "ConfigureALG", fmt.Sprintf("proto %d port %d: verdict %d", c.proto, c.port, v))
+		case c.alg && (translated || !triggered):
+			viol(e.run, part, "alg-key", "ConfigureALG", fmt.Sprintf("ALG configured for proto %d port %d is not found by the program's own key derivation: flow translated=%v, alg_triggers advanced=%v", c.proto, c.port, translated, triggered), fmt.Sprintf("proto=%d port=%d", c.proto, c.port))
+		case !c.alg && (!translated || triggered):
+			viol(e.run, part, "alg-key", "ConfigureALG", fmt.Sprintf("no ALG is configured for proto %d port %d, yet the flow is handled as one: translated=%v, alg_triggers advanced=%v", c.proto, c.port, translated, triggered), fmt.Sprintf("proto=%d port=%d", c.proto, c.port))
+		default:
+			e.hits++
+		}
 	}
 }
 
